@@ -42,7 +42,10 @@ func gen(t *rapid.T) sw.Scenario {
 			tg := rapid.SampledFrom([]string{"header", "data"}).Draw(t, "target")
 			ln := rapid.IntRange(1, 8).Draw(t, "outage")
 			o := sw.Op{Kind: "script", Target: tg}
-			kind := rapid.SampledFrom([]string{"timeout", "error", "mempool", "toobig", "canceled", "da-canceled"}).Draw(t, "outkind")
+			kind := rapid.SampledFrom([]string{"timeout", "error", "mempool", "toobig", "canceled", "da-canceled", "hang"}).Draw(t, "outkind")
+			if kind == "hang" {
+				ln = 1 // a request that is swallowed (no answer at all): only its own deadline ends it
+			}
 			for j := 0; j < ln; j++ {
 				o.Script = append(o.Script, world.SubmitResp{Kind: kind})
 			}
